@@ -21,6 +21,11 @@ RULE = ('seeded API workloads: batches of send_text / send_binary / send_json '
         'sendall is decoded by an independent RFC 6455 client-frame decoder. '
         'Non-trivial = >= 1 accepted call wrote a frame; distinct = distinct '
         '(call kinds, length classes, states, mask mode) signatures')
+RULE += (' '
+         'Also: a write that fails part-way with a transient errno (the call '
+         'must not be repeated), the extension header folded with blank / '
+         'TAB, and the judged connection being the second one of the object '
+         'after one whose server did / did not accept permessage-deflate.')
 SHRINK_LISTS = [('batches', 'connecting'), ('batches', 'connected'),
                 ('batches', 'ready'), ('batches', 'closing'),
                 ('batches', 'after_close'), ('batches', 'disconnected')]
